@@ -487,3 +487,71 @@ func parseFreshRule(c *Ctx, rule string) {
 	}
 	c.Floor(rule, n, 80)
 }
+
+// copyLiteralRule: a literal that copies a node copies all of it.
+func copyLiteralRule(c *Ctx, rule string, inScope func(name string) bool) {
+	p := c.P
+	c.Rule(rule, "in the reducers a composite literal of an AST node type that takes at least one field from a value of that same type (a copy) sets every field of the type: a copy that leaves a field out silently resets it (the ::type of a reference, a flag) in the result")
+	n := 0
+	for _, fb := range p.funcBodies() {
+		if !inScope(fb.Decl.Name()) {
+			continue
+		}
+		fb := fb
+		ast.Inspect(fb.Body, func(nd ast.Node) bool {
+			cl, ok := nd.(*ast.CompositeLit)
+			if !ok {
+				return true
+			}
+			nt, ok := p.Info.TypeOf(cl).(*types.Named)
+			if !ok || nt.Obj().Pkg() != p.Types {
+				return true
+			}
+			st, ok := nt.Underlying().(*types.Struct)
+			if !ok || st.NumFields() < 2 {
+				return true
+			}
+			set := map[string]bool{}
+			copies := false
+			for _, el := range cl.Elts {
+				kv, ok := el.(*ast.KeyValueExpr)
+				if !ok {
+					return true // positional: the compiler demands every field
+				}
+				id, ok := kv.Key.(*ast.Ident)
+				if !ok {
+					continue
+				}
+				set[id.Name] = true
+				// value is <x>.<same field> with x of the same node type
+				if sel, ok := ast.Unparen(kv.Value).(*ast.SelectorExpr); ok && sel.Sel.Name == id.Name {
+					xt := p.Info.TypeOf(sel.X)
+					if pt, ok := xt.(*types.Pointer); ok {
+						xt = pt.Elem()
+					}
+					if types.Identical(xt, nt) {
+						copies = true
+					}
+				}
+			}
+			if !copies {
+				return true
+			}
+			n++
+			var missing []string
+			for i := 0; i < st.NumFields(); i++ {
+				if !set[st.Field(i).Name()] {
+					missing = append(missing, st.Field(i).Name())
+				}
+			}
+			key := fmt.Sprintf("%s: copy of %s #%d", fb.Name, nt.Obj().Name(), n)
+			if len(missing) > 0 {
+				c.Bad(rule, key, cl.Pos(), "the copy leaves out "+strings.Join(missing, ", ")+": the result has the zero value where the original had a value")
+			} else {
+				c.OK(rule, key, cl.Pos(), "every field copied or set")
+			}
+			return true
+		})
+	}
+	c.Floor(rule, n, 1)
+}
